@@ -387,6 +387,9 @@ func (e *Env) resolveModifies(entries []string) (targets []modTarget, all bool) 
 				} else if strings.HasPrefix(x, "cells(") && strings.HasSuffix(x, ")") {
 					T, _ := e.resolveType(x[6 : len(x)-1])
 					targets = append(targets, modTarget{key: g.cellKey(T), whole: true})
+				} else if strings.HasPrefix(x, "arrays(") && strings.HasSuffix(x, ")") {
+					T, _ := e.resolveType(x[7 : len(x)-1])
+					targets = append(targets, modTarget{key: g.arrKey(T), whole: true})
 				} else if strings.HasPrefix(x, "umaps(") && strings.HasSuffix(x, ")") {
 					kv := strings.Split(x[6:len(x)-1], ";")
 					if len(kv) != 2 {
@@ -927,9 +930,28 @@ func (fc *FnCtx) builtin(ins ssa.Instruction, b *ssa.Builtin, cc *ssa.CallCommon
 	case "append":
 		fc.appendBuiltin(ins, cc, res)
 	case "copy":
-		// copy(dst, src): dst elements arbitrary afterwards (abstracted), returns count
+		// copy(dst, src) for slices of the same element type: the first n = min(len) elements of dst become those of
+		// src (read before the copy, as memmove does), everything else keeps its content; returns n
 		dst := fc.term(cc.Args[0])
-		if st, ok := cc.Args[0].Type().Underlying().(*types.Slice); ok {
+		src := fc.term(cc.Args[1])
+		st, ok := cc.Args[0].Type().Underlying().(*types.Slice)
+		st2, ok2 := cc.Args[1].Type().Underlying().(*types.Slice)
+		if ok && ok2 && types.Identical(st.Elem(), st2.Elem()) {
+			k := g.arrKey(st.Elem())
+			h := g.get(fc.cur, k)
+			n := g.def(fc.prefix+"copy.n", "Int", fmt.Sprintf("(ite (<= (slen %s) (slen %s)) (slen %s) (slen %s))", dst.t, src.t, dst.t, src.t))
+			nv := g.fresh(fc.prefix+"copydst", "(Array Int "+g.sortOf(st.Elem())+")")
+			oldD := fmt.Sprintf("(select %s (sarr %s))", h, dst.t)
+			oldS := fmt.Sprintf("(select %s (sarr %s))", h, src.t)
+			fc.assume(fmt.Sprintf("(forall ((|i| Int)) (! (=> (and (<= 0 |i|) (< |i| %s)) (= (select %s (|ix| (soff %s) |i|)) (select %s (|ix| (soff %s) |i|)))) :pattern ((select %s (|ix| (soff %s) |i|)))))", n, nv, dst.t, oldS, src.t, nv, dst.t), "copy: copied prefix")
+			fc.assume(fmt.Sprintf("(forall ((|p| Int)) (! (=> (or (< |p| (soff %s)) (>= |p| (+ (soff %s) %s))) (= (select %s |p|) (select %s |p|))) :pattern ((select %s |p|))))", dst.t, dst.t, n, nv, oldD, nv), "copy: rest unchanged")
+			g.set(fc.cur, k, fmt.Sprintf("(ite (= %s 0) %s (store %s (sarr %s) %s))", n, h, h, dst.t, nv))
+			if res != nil {
+				fc.defVal(res, n)
+			}
+			return
+		}
+		if ok {
 			k := g.arrKey(st.Elem())
 			nv := g.fresh("copydst", "(Array Int "+g.sortOf(st.Elem())+")")
 			g.set(fc.cur, k, fmt.Sprintf("(store %s (sarr %s) %s)", g.get(fc.cur, k), dst.t, nv))
